@@ -403,13 +403,13 @@ theorem valid_first (y m : Nat) (h1 : 1 ≤ y) (h2 : y ≤ 9999) (h3 : 1 ≤ m) 
 theorem shiftMonth_range (y m : Nat) (k : Int) : 1 ≤ (shiftMonth y m k).2 ∧ (shiftMonth y m k).2 ≤ 12 := by
   unfold shiftMonth; simp only; omega
 
-theorem monthPeriod_spec (R : DateTime) (hv : R.date.valid = true) (k : Int) (t : Str) (b e : DateTime)
-    (h : monthPeriod R k = some (t, b, e))
+theorem monthPeriodPreFix_spec (R : DateTime) (hv : R.date.valid = true) (k : Int) (t : Str) (b e : DateTime)
+    (h : monthPeriodPreFix R k = some (t, b, e))
     (g : k ≤ 0 ∨ R.date.d ≤ daysInMonth (shiftMonth R.date.y R.date.m k).1.toNat (shiftMonth R.date.y R.date.m k).2) :
     ∃ Y M Y2 M2 : Nat, ((Y : Int), M) = shiftMonth R.date.y R.date.m k ∧ ((Y2 : Int), M2) = shiftMonth Y M 1 ∧
       t = pad 4 Y ++ [45] ++ pad 2 M ∧ b = ⟨⟨Y, M, 1⟩, 0⟩ ∧ e = ⟨⟨Y2, M2, 1⟩, 0⟩ ∧
       (⟨Y, M, 1⟩ : Date).valid = true ∧ (⟨Y2, M2, 1⟩ : Date).valid = true := by
-  unfold monthPeriod addDelta at h
+  unfold monthPeriodPreFix addDelta at h
   cases h1 : datedeltaAdd R.date 0 k 0 with
   | none => simp [h1] at h
   | some tmp =>
@@ -713,5 +713,515 @@ theorem generateDates_feb29_leap (R : DateTime) (hv : R.date.valid = true) (hl :
     have m := dby_mono (show 1 ≤ R.date.y - 4 + 1 by omega) (show R.date.y - 4 + 1 ≤ R.date.y by omega)
     refine ⟨R.date.y - 4, ?_, vp, by rw [e4]; exact v0, by omega, by rw [e4]; omega, nl _ g.1⟩
     rw [show (R.date.y : Int) - 4 = ((R.date.y - 4 : Nat) : Int) by omega, safeCreate_ymd _ 2 29 vp, e4]
+
+/-! ### lemmas -/
+
+set_option linter.unusedVariables false
+
+theorem addSeconds_spec (x : DateTime) (hv : x.date.valid = true) (k : Int) (r : DateTime)
+    (h : addSeconds x k = some r) :
+    r.date.valid = true ∧ r.secs < 86400 ∧
+    (r.date.ord : Int) * 86400 + r.secs = (x.date.ord : Int) * 86400 + x.secs + k := by
+  unfold addSeconds at h
+  simp only at h
+  split at h
+  · next hr =>
+    simp only [Option.some.injEq] at h
+    subst h
+    have := ord_ofOrd (((x.date.ord : Int) * 86400 + (x.secs : Int) + k) / 86400).toNat (by omega)
+      (by unfold maxOrd at *; omega)
+    refine ⟨this.2, by simp only; omega, ?_⟩
+    simp only [this.1]; omega
+  · simp at h
+
+theorem addSeconds_isSome (x : DateTime) (k : Int)
+    (h1 : 86400 ≤ (x.date.ord : Int) * 86400 + x.secs + k)
+    (h2 : (x.date.ord : Int) * 86400 + x.secs + k < ((maxOrd : Int) + 1) * 86400) : ∃ r, addSeconds x k = some r := by
+  unfold addSeconds
+  simp only
+  rw [if_pos (by unfold maxOrd at *; omega)]
+  exact ⟨_, rfl⟩
+
+theorem weekDay_spec (R : DateTime) (hv : R.date.valid = true) (k : Int) (dow : Nat) (r : DateTime)
+    (h : weekDay R k dow = some r) :
+    r.date.valid = true ∧ r.secs = R.secs ∧ (r.date.ord : Int) = mondayOrd R.date.ord + (target dow : Int) - 1 + 7 * k := by
+  unfold weekDay at h
+  cases h1 : this R dow with
+  | none => simp [h1] at h
+  | some x =>
+    have s1 := this_spec R hv dow x h1
+    simp only [h1, Option.bind_some, addDelta_days x s1.1] at h
+    have s2 := addDays_spec x s1.1 _ r h
+    exact ⟨s2.1, by rw [s2.2.2, s1.2.1], by omega⟩
+
+/-- what the week branch computes, on ordinals: `(begin, end)` for Monday `M`, reference `R`, shift `k` -/
+def weekPrefixBounds (M R k : Int) (early mid late : Bool) : Int × Int :=
+  let be : Int × Int :=
+    if early then (M + 7 * k, M + 7 * k + 3) else if mid then (M + 7 * k + 1, M + 7 * k + 5)
+    else if late then (M + 7 * k + 3, M + 7 * k + 7) else (M + 7 * k, M + 7 * k + 7)
+  if early && k == 0 then (be.1, if R < be.2 then R else be.2)
+  else if late && k == 0 then (if be.1 < R then R else be.1, be.2)
+  else be
+
+theorem weekTimex_of_thursday (R : DateTime) (hv : R.date.valid = true) (k : Int) (th : DateTime)
+    (h : weekDay R k 4 = some th) (mon : Date) (hm : mon.valid = true)
+    (hmo : (mon.ord : Int) = mondayOrd R.date.ord + 7 * k) :
+    pad 4 th.date.y ++ [45, 87] ++ pad 2 (isoCalendar th.date).2.1 =
+      pad 4 (isoCalendar mon).1 ++ [45, 87] ++ pad 2 (isoCalendar mon).2.1 := by
+  have s := weekDay_spec R hv k 4 th h
+  have tg4 : target 4 = 4 := by decide
+  rw [tg4] at s
+  have m := mondayOrd_spec R.date.ord (ord_range R.date hv).1
+  have thu : weekdayOrd th.date.ord = 3 := by unfold weekdayOrd at m ⊢; omega
+  have same : mondayOrd th.date.ord = mondayOrd mon.ord := by unfold mondayOrd weekdayOrd at *; omega
+  have sw := isoCalendar_same_week th.date mon s.1 hm same
+  rw [← sw.1, ← sw.2, isoYear_of_thursday th.date s.1 thu]
+
+theorem weekPeriodP_spec (R : DateTime) (hv : R.date.valid = true) (k : Int) (early mid late : Bool) (t : Str)
+    (b e : DateTime) (h : weekPeriodP R k early mid late = some (t, b, e)) :
+    b.date.valid = true ∧ e.date.valid = true ∧ b.secs = R.secs ∧ e.secs = R.secs ∧
+    ((b.date.ord : Int), (e.date.ord : Int)) = weekPrefixBounds (mondayOrd R.date.ord) R.date.ord k early mid late ∧
+    (∃ mon : Date, mon.valid = true ∧ (mon.ord : Int) = mondayOrd R.date.ord + 7 * k ∧
+      t = pad 4 (isoCalendar mon).1 ++ [45, 87] ++ pad 2 (isoCalendar mon).2.1) := by
+  unfold weekPeriodP at h
+  simp only at h
+  have tg : target 1 = 1 ∧ target 2 = 2 ∧ target 3 = 3 ∧ target 4 = 4 ∧ target 5 = 5 ∧ target 7 = 7 := by decide
+  cases h4 : weekDay R k 4 with
+  | none => simp [h4] at h
+  | some th =>
+  have s4 := weekDay_spec R hv k 4 th h4
+  cases h1 : weekDay R k 1 with
+  | none => simp [h4, h1] at h
+  | some b0 =>
+  have s1 := weekDay_spec R hv k 1 b0 h1
+  cases h7 : weekDay R k 7 with
+  | none => simp [h4, h1, h7] at h
+  | some e0 =>
+  have s7 := weekDay_spec R hv k 7 e0 h7
+  simp only [h4, h1, h7, Option.bind_some] at h
+  rw [tg.2.2.2.1] at s4; rw [tg.1] at s1; rw [tg.2.2.2.2.2] at s7
+  have tx := weekTimex_of_thursday R hv k th h4 b0.date s1.1 (by omega)
+  have hmon : ∃ mon : Date, mon.valid = true ∧ (mon.ord : Int) = mondayOrd R.date.ord + 7 * k ∧
+      pad 4 th.date.y ++ [45, 87] ++ pad 2 (isoCalendar th.date).2.1 =
+        pad 4 (isoCalendar mon).1 ++ [45, 87] ++ pad 2 (isoCalendar mon).2.1 := ⟨b0.date, s1.1, by omega, tx⟩
+  -- the (begin, end-before-+1) pair selected by the prefix
+  generalize hsel : (if early = true then Option.map (fun e => (b0, e)) (weekDay R k 3)
+      else if mid = true then (weekDay R k 2).bind fun b => Option.map (fun e => (b, e)) (weekDay R k 5)
+      else if late = true then Option.map (fun b => (b, e0)) (some th) else some (b0, e0)) = sel at h
+  cases sel with
+  | none => simp at h
+  | some be =>
+  simp only [Option.bind_some] at h
+  have hbe : be.1.date.valid = true ∧ be.2.date.valid = true ∧ be.1.secs = R.secs ∧ be.2.secs = R.secs ∧
+      ((be.1.date.ord : Int), (be.2.date.ord : Int) + 1) =
+        (if early then (mondayOrd R.date.ord + 7 * k, mondayOrd R.date.ord + 7 * k + 3)
+         else if mid then (mondayOrd R.date.ord + 7 * k + 1, mondayOrd R.date.ord + 7 * k + 5)
+         else if late then (mondayOrd R.date.ord + 7 * k + 3, mondayOrd R.date.ord + 7 * k + 7)
+         else ((mondayOrd R.date.ord : Int) + 7 * k, mondayOrd R.date.ord + 7 * k + 7)) := by
+    cases early
+    · cases mid
+      · cases late
+        · simp only [Bool.false_eq_true, if_false, Option.some.injEq] at hsel ⊢
+          subst hsel
+          refine ⟨s1.1, s7.1, s1.2.1, s7.2.1, ?_⟩
+          rw [Prod.mk.injEq]; constructor <;> simp only <;> omega
+        · simp only [Bool.false_eq_true, if_false, if_true, Option.map_some, Option.some.injEq] at hsel ⊢
+          subst hsel
+          refine ⟨s4.1, s7.1, s4.2.1, s7.2.1, ?_⟩
+          rw [Prod.mk.injEq]; constructor <;> simp only <;> omega
+      · simp only [Bool.false_eq_true, if_false, if_true] at hsel ⊢
+        cases h2 : weekDay R k 2 with
+        | none => simp [h2] at hsel
+        | some x2 =>
+        cases h5 : weekDay R k 5 with
+        | none => simp [h2, h5] at hsel
+        | some x5 =>
+        have s2 := weekDay_spec R hv k 2 x2 h2
+        have s5 := weekDay_spec R hv k 5 x5 h5
+        rw [tg.2.1] at s2; rw [tg.2.2.2.2.1] at s5
+        simp only [h2, h5, Option.bind_some, Option.map_some, Option.some.injEq] at hsel
+        subst hsel
+        refine ⟨s2.1, s5.1, s2.2.1, s5.2.1, ?_⟩
+        rw [Prod.mk.injEq]; constructor <;> simp only <;> omega
+    · simp only [if_true] at hsel ⊢
+      cases h3 : weekDay R k 3 with
+      | none => simp [h3] at hsel
+      | some x3 =>
+      have s3 := weekDay_spec R hv k 3 x3 h3
+      rw [tg.2.2.1] at s3
+      simp only [h3, Option.map_some, Option.some.injEq] at hsel
+      subst hsel
+      refine ⟨s1.1, s3.1, s1.2.1, s3.2.1, ?_⟩
+      rw [Prod.mk.injEq]; constructor <;> simp only <;> omega
+  rw [addDelta_days be.2 hbe.2.1] at h
+  cases ha : addDays be.2 1 with
+  | none => simp [ha] at h
+  | some e1 =>
+  have sa := addDays_spec be.2 hbe.2.1 1 e1 ha
+  simp only [ha, Option.bind_some] at h
+  obtain ⟨v1, v2, c1, c2, hb⟩ := hbe
+  rw [Prod.mk.injEq] at hb
+  unfold weekPrefixBounds
+  simp only
+  by_cases ce : (early && k == 0) = true
+  · rw [if_pos ce] at h ⊢
+    simp only [Option.some.injEq, Prod.mk.injEq] at h
+    obtain ⟨ht, hb', he'⟩ := h
+    subst hb'
+    by_cases cl : R.lt e1 = true
+    · rw [if_pos cl] at he'
+      subst he'
+      rw [lt_iff] at cl
+      refine ⟨v1, hv, c1, rfl, ?_, ?_⟩
+      · rw [Prod.mk.injEq]; constructor
+        · exact hb.1
+        · rw [if_pos (by omega)]
+      · obtain ⟨mon, m1, m2, m3⟩ := hmon; exact ⟨mon, m1, m2, by rw [← ht]; exact m3⟩
+    · rw [if_neg cl] at he'
+      subst he'
+      rw [lt_iff] at cl
+      refine ⟨v1, sa.1, c1, by rw [sa.2.2, c2], ?_, ?_⟩
+      · rw [Prod.mk.injEq]; constructor
+        · exact hb.1
+        · rw [if_neg (by omega)]; omega
+      · obtain ⟨mon, m1, m2, m3⟩ := hmon; exact ⟨mon, m1, m2, by rw [← ht]; exact m3⟩
+  · rw [if_neg ce] at h ⊢
+    by_cases cla : (late && k == 0) = true
+    · rw [if_pos cla] at h ⊢
+      simp only [Option.some.injEq, Prod.mk.injEq] at h
+      obtain ⟨ht, hb', he'⟩ := h
+      subst he'
+      by_cases cl : be.1.lt R = true
+      · rw [if_pos cl] at hb'
+        subst hb'
+        rw [lt_iff] at cl
+        refine ⟨hv, sa.1, rfl, by rw [sa.2.2, c2], ?_, ?_⟩
+        · rw [Prod.mk.injEq]; constructor
+          · rw [if_pos (by omega)]
+          · omega
+        · obtain ⟨mon, m1, m2, m3⟩ := hmon; exact ⟨mon, m1, m2, by rw [← ht]; exact m3⟩
+      · rw [if_neg cl] at hb'
+        subst hb'
+        rw [lt_iff] at cl
+        refine ⟨v1, sa.1, c1, by rw [sa.2.2, c2], ?_, ?_⟩
+        · rw [Prod.mk.injEq]; constructor
+          · rw [if_neg (by omega)]; exact hb.1
+          · omega
+        · obtain ⟨mon, m1, m2, m3⟩ := hmon; exact ⟨mon, m1, m2, by rw [← ht]; exact m3⟩
+    · rw [if_neg cla] at h ⊢
+      simp only [Option.some.injEq, Prod.mk.injEq] at h
+      obtain ⟨ht, hb', he'⟩ := h
+      subst hb' he'
+      refine ⟨v1, sa.1, c1, by rw [sa.2.2, c2], ?_, ?_⟩
+      · rw [Prod.mk.injEq]; constructor
+        · exact hb.1
+        · omega
+      · obtain ⟨mon, m1, m2, m3⟩ := hmon; exact ⟨mon, m1, m2, by rw [← ht]; exact m3⟩
+
+/-! ### weekend -/
+
+theorem weekendPeriod_spec (R : DateTime) (hv : R.date.valid = true) (k : Int) (t : Str) (b e : DateTime)
+    (h : weekendPeriod R k = some (t, b, e)) :
+    b.date.valid = true ∧ e.date.valid = true ∧ b.secs = R.secs ∧ e.secs = R.secs ∧
+    (b.date.ord : Int) = mondayOrd R.date.ord + 5 + 7 * k ∧ e.date.ord = b.date.ord + 2 ∧
+    t = pad 4 R.date.y ++ [45, 87] ++ pad 2 (isoCalendar b.date).2.1 ++ [45, 87, 69] := by
+  unfold weekendPeriod at h
+  cases h6 : weekDay R k 6 with
+  | none => simp [h6] at h
+  | some b0 =>
+  cases h7 : weekDay R k 7 with
+  | none => simp [h6, h7] at h
+  | some e0 =>
+  have s6 := weekDay_spec R hv k 6 b0 h6
+  have s7 := weekDay_spec R hv k 7 e0 h7
+  rw [show target 6 = 6 by decide] at s6; rw [show target 7 = 7 by decide] at s7
+  simp only [h6, h7, Option.bind_some, addDelta_days e0 s7.1] at h
+  cases ha : addDays e0 1 with
+  | none => simp [ha] at h
+  | some e1 =>
+  have sa := addDays_spec e0 s7.1 1 e1 ha
+  simp only [ha, Option.bind_some, Option.some.injEq, Prod.mk.injEq] at h
+  obtain ⟨ht, hb, he⟩ := h
+  subst hb he
+  exact ⟨s6.1, sa.1, s6.2.1, by rw [sa.2.2, s7.2.1], by omega, by omega, ht.symm⟩
+
+/-! ### month with prefix (code after the fix) -/
+
+theorem valid_md (y m d : Nat) (h1 : 1 ≤ y) (h2 : y ≤ 9999) (h3 : 1 ≤ m) (h4 : m ≤ 12) (h5 : 1 ≤ d) (h6 : d ≤ 28) :
+    (⟨y, m, d⟩ : Date).valid = true := by
+  rw [valid_iff]
+  have := daysInMonth_ge y m h3 h4
+  simp only; omega
+
+theorem monthPeriodP_spec (R : DateTime) (hv : R.date.valid = true) (k : Int) (early late : Bool) (t : Str)
+    (b e : DateTime) (h : monthPeriodP R k early late = some (t, b, e)) :
+    ∃ Y M Y2 M2 : Nat, ((Y : Int), M) = shiftMonth R.date.y R.date.m k ∧ ((Y2 : Int), M2) = shiftMonth Y M 1 ∧
+      t = pad 4 Y ++ [45] ++ pad 2 M ∧
+      b = (if early then ⟨⟨Y, M, 1⟩, 0⟩ else if late then ⟨⟨Y, M, 16⟩, 0⟩ else ⟨⟨Y, M, 1⟩, 0⟩) ∧
+      e = (if early then ⟨⟨Y, M, 16⟩, 0⟩ else ⟨⟨Y2, M2, 1⟩, 0⟩) := by
+  have hvy := (valid_iff R.date).1 hv
+  have v1 := valid_first R.date.y R.date.m hvy.1 hvy.2.1 hvy.2.2.1 hvy.2.2.2.1
+  have sr := shiftMonth_range R.date.y R.date.m k
+  have ge := daysInMonth_ge (shiftMonth R.date.y R.date.m k).1.toNat (shiftMonth R.date.y R.date.m k).2 sr.1 sr.2
+  unfold monthPeriodP addDelta at h
+  simp only at h
+  cases h1 : datedeltaAdd (⟨R.date.y, R.date.m, 1⟩ : Date) 0 k 0 with
+  | none => simp [h1] at h
+  | some tmp =>
+  have s1 := datedeltaAdd_months ⟨R.date.y, R.date.m, 1⟩ v1 k tmp h1 (Or.inr (by simp only; omega))
+  have tv := (valid_iff tmp).1 s1.1
+  have vf := valid_first tmp.y tmp.m tv.1 tv.2.1 tv.2.2.1 tv.2.2.2.1
+  simp only [h1, Option.map_some, Option.bind_some] at h
+  rw [safeCreate_ymd tmp.y tmp.m 1 vf] at h
+  cases h2 : datedeltaAdd (⟨tmp.y, tmp.m, 1⟩ : Date) 0 1 0 with
+  | none => simp [h2] at h
+  | some e0 =>
+  -- reuse the unprefixed statement for the first of the next month
+  have hold : monthPeriodPreFix ⟨⟨R.date.y, R.date.m, 1⟩, R.secs⟩ k =
+      some (pad 4 tmp.y ++ [45] ++ pad 2 tmp.m, ⟨⟨tmp.y, tmp.m, 1⟩, 0⟩, ⟨e0, 0⟩) := by
+    unfold monthPeriodPreFix addDelta
+    simp only [h1, Option.map_some, Option.bind_some]
+    rw [safeCreate_ymd tmp.y tmp.m 1 vf]
+    simp only [h2, Option.map_some, Option.bind_some]
+  obtain ⟨Y, M, Y2, M2, a1, a2, a3, a4, a5, a6, a7⟩ :=
+    monthPeriodPreFix_spec ⟨⟨R.date.y, R.date.m, 1⟩, R.secs⟩ v1 k _ _ _ hold (Or.inr (by simp only; omega))
+  simp only [DateTime.mk.injEq, Date.mk.injEq, and_true] at a4
+  obtain ⟨ay, am⟩ := a4
+  simp only [h2, Option.map_some, Option.bind_some] at h
+  refine ⟨Y, M, Y2, M2, a1, a2, ?_⟩
+  subst ay am
+  cases early
+  · simp only [Bool.false_eq_true, if_false] at h ⊢
+    cases late
+    · simp only [Bool.false_eq_true, if_false, Option.some.injEq, Prod.mk.injEq] at h ⊢
+      exact ⟨h.1.symm, h.2.1.symm, by rw [← h.2.2, a5]⟩
+    · simp only [if_true, Option.some.injEq, Prod.mk.injEq] at h ⊢
+      rw [safeCreate_ymd tmp.y tmp.m 16 (valid_md _ _ _ tv.1 tv.2.1 tv.2.2.1 tv.2.2.2.1 (by omega) (by omega))] at h
+      exact ⟨h.1.symm, h.2.1.symm, by rw [← h.2.2, a5]⟩
+  · simp only [if_true] at h ⊢
+    have v15 := valid_md tmp.y tmp.m 15 tv.1 tv.2.1 tv.2.2.1 tv.2.2.2.1 (by omega) (by omega)
+    have v16 := valid_md tmp.y tmp.m 16 tv.1 tv.2.1 tv.2.2.1 tv.2.2.2.1 (by omega) (by omega)
+    rw [safeCreate_ymd tmp.y tmp.m 15 v15, datedeltaAdd_days _ v15] at h
+    cases h3 : (⟨tmp.y, tmp.m, 15⟩ : Date).addDays 1 with
+    | none => simp [h3] at h
+    | some d16 =>
+    have s3 := Date.addDays_spec _ v15 1 d16 h3
+    have e16 : d16 = ⟨tmp.y, tmp.m, 16⟩ := by
+      apply date_eq_of_ord _ _ s3.1 v16
+      rw [s3.2.1]; simp [Date.ord]; omega
+    simp only [h3, Option.map_some, Option.some.injEq, Prod.mk.injEq] at h
+    exact ⟨h.1.symm, h.2.1.symm, by rw [← h.2.2, e16]⟩
+
+/-! ### year with prefix -/
+
+theorem jun30_succ (y : Nat) : (⟨y, 6, 30⟩ : Date).ord + 1 = (⟨y, 7, 1⟩ : Date).ord := by
+  simp [Date.ord, daysBeforeMonth, daysBeforeMonthTbl]; omega
+
+theorem yearPeriodP_spec (R : DateTime) (hv : R.date.valid = true) (k : Int) (early late : Bool) (t : Str)
+    (b e : DateTime) (h : yearPeriodP R k early late = some (t, b, e)) :
+    ∃ Y : Nat, (Y : Int) = R.date.y + k ∧ 1 ≤ Y ∧ Y ≤ 9999 ∧ t = pad 4 Y ∧
+      b = (if late then ⟨⟨Y, 7, 1⟩, 0⟩ else ⟨⟨Y, 1, 1⟩, 0⟩) ∧
+      e = (if early then ⟨⟨Y, 7, 1⟩, 0⟩ else ⟨⟨Y + 1, 1, 1⟩, 0⟩) := by
+  unfold yearPeriodP addDelta at h
+  cases h1 : datedeltaAdd R.date k 0 0 with
+  | none => simp [h1] at h
+  | some tmp =>
+  have s1 := datedeltaAdd_years R.date hv k tmp h1
+  have tv := (valid_iff tmp).1 s1.1
+  simp only [h1, Option.map_some, Option.bind_some] at h
+  have v71 := valid_md tmp.y 7 1 tv.1 tv.2.1 (by omega) (by omega) (by omega) (by omega)
+  have v11 := valid_jan1 tmp.y tv.1 tv.2.1
+  have v630 : (⟨tmp.y, 6, 30⟩ : Date).valid = true := by rw [valid_iff]; simp [daysInMonth]; omega
+  have v1231 := valid_dec31 tmp.y tv.1 tv.2.1
+  rw [safeCreate_ymd tmp.y 7 1 v71, safeCreate_ymd tmp.y 1 1 v11, safeCreate_ymd tmp.y 6 30 v630,
+    safeCreate_ymd tmp.y 12 31 v1231] at h
+  refine ⟨tmp.y, s1.2, tv.1, tv.2.1, ?_⟩
+  cases early
+  · simp only [Bool.false_eq_true, if_false] at h ⊢
+    rw [datedeltaAdd_days _ v1231] at h
+    cases h2 : (⟨tmp.y, 12, 31⟩ : Date).addDays 1 with
+    | none => simp [h2] at h
+    | some e0 =>
+    have s2 := Date.addDays_spec _ v1231 1 e0 h2
+    simp only [h2, Option.map_some, Option.bind_some, Option.some.injEq, Prod.mk.injEq] at h
+    have d := dec31_succ tmp.y tv.1
+    have hy1 : tmp.y + 1 ≤ 9999 := by
+      have r0 := ord_range e0 s2.1
+      by_cases c : tmp.y + 1 ≤ 9999
+      · exact c
+      · exfalso
+        have : tmp.y = 9999 := by omega
+        rw [this] at s2
+        have : (⟨9999, 12, 31⟩ : Date).ord = maxOrd := by decide
+        omega
+    have e0eq : e0 = ⟨tmp.y + 1, 1, 1⟩ := by
+      apply date_eq_of_ord _ _ s2.1 (valid_jan1 _ (by omega) hy1); omega
+    exact ⟨h.1.symm, h.2.1.symm, by rw [← h.2.2, e0eq]⟩
+  · simp only [if_true] at h ⊢
+    rw [datedeltaAdd_days _ v630] at h
+    cases h2 : (⟨tmp.y, 6, 30⟩ : Date).addDays 1 with
+    | none => simp [h2] at h
+    | some e0 =>
+    have s2 := Date.addDays_spec _ v630 1 e0 h2
+    simp only [h2, Option.map_some, Option.bind_some, Option.some.injEq, Prod.mk.injEq] at h
+    have e0eq : e0 = ⟨tmp.y, 7, 1⟩ := by
+      apply date_eq_of_ord _ _ s2.1 v71
+      have := jun30_succ tmp.y; omega
+    exact ⟨h.1.symm, h.2.1.symm, by rw [← h.2.2, e0eq]⟩
+
+/-! ### year-to-date, month-to-date -/
+
+theorem yearToDate_spec (R : DateTime) (hv : R.date.valid = true) :
+    yearToDate R = (pad 4 R.date.y, ⟨⟨R.date.y, 1, 1⟩, 0⟩, R) := by
+  have hvy := (valid_iff R.date).1 hv
+  unfold yearToDate
+  have := safeCreate_ymd R.date.y 1 1 (valid_jan1 _ hvy.1 hvy.2.1)
+  unfold safeCreateFromMinValue at this
+  rw [this]
+
+theorem monthToDate_spec (R : DateTime) (hv : R.date.valid = true) :
+    monthToDate R = (pad 4 R.date.y ++ [45] ++ pad 2 R.date.m, ⟨⟨R.date.y, R.date.m, 1⟩, 0⟩,
+      ⟨⟨R.date.y, R.date.m, R.date.m⟩, 3600⟩, R) := by
+  have hvy := (valid_iff R.date).1 hv
+  have v1 := valid_first R.date.y R.date.m hvy.1 hvy.2.1 hvy.2.2.1 hvy.2.2.2.1
+  have vm := valid_md R.date.y R.date.m R.date.m hvy.1 hvy.2.1 hvy.2.2.1 hvy.2.2.2.1 hvy.2.2.1 (by omega)
+  unfold monthToDate
+  have a := safeCreate_ymd R.date.y R.date.m 1 v1
+  unfold safeCreateFromMinValue at a
+  rw [a]
+  unfold safeCreateFromValueH
+  rw [isValidDate_of_valid ⟨R.date.y, R.date.m, R.date.m⟩ vm]
+  simp
+
+/-! ### rest of the week / month / year -/
+
+theorem restOfFin_nonneg (R E : DateTime) (diff : Int) (b : Bool) (hd : 0 ≤ diff) :
+    restOfFin R E diff b =
+      if R ≠ E ∨ b = true then
+        some ([40] ++ luisDateOf R ++ [44] ++ luisDateOf E ++ [44, 80] ++ natStr diff.toNat ++ [68, 41], R, E)
+      else none := by
+  unfold restOfFin
+  rw [if_neg (show ¬ diff < 0 by omega)]
+
+theorem restOf_week_spec (R : DateTime) (hv : R.date.valid = true) (res : Option (Str × DateTime × DateTime))
+    (h : restOf .W R = some res) :
+    ∃ e : DateTime, e.date.valid = true ∧ e.secs = R.secs ∧ e.date.ord = mondayOrd R.date.ord + 6 ∧
+      R.date.ord ≤ e.date.ord ∧
+      res = some ([40] ++ luisDateOf R ++ [44] ++ luisDateOf e ++ [44, 80] ++ natStr (e.date.ord - R.date.ord) ++ [68, 41],
+                  R, e) := by
+  unfold restOf at h
+  simp only at h
+  have m := mondayOrd_spec R.date.ord (ord_range R.date hv).1
+  cases ha : addDays R (7 - (R.date.isoWeekday : Int)) with
+  | none => simp [ha] at h
+  | some e =>
+  have sa := addDays_spec R hv _ e ha
+  simp only [ha, Option.map_some, Option.some.injEq] at h
+  have iw : R.date.isoWeekday = weekdayOrd R.date.ord + 1 := rfl
+  rw [iw] at sa h
+  have wl := weekdayOrd_lt R.date.ord
+  have eo : e.date.ord = mondayOrd R.date.ord + 6 := by omega
+  have dt : ((7 : Int) - ((weekdayOrd R.date.ord + 1 : Nat) : Int)).toNat = e.date.ord - R.date.ord := by omega
+  refine ⟨e, sa.1, sa.2.2, eo, by omega, ?_⟩
+  rw [← h, restOfFin_nonneg _ _ _ _ (by omega), dt]
+  have cond : R ≠ e ∨ ((7 : Int) - ((weekdayOrd R.date.ord + 1 : Nat) : Int) == 0) = true := by
+    by_cases c : (7 : Int) - ((weekdayOrd R.date.ord + 1 : Nat) : Int) = 0
+    · right; rw [beq_iff_eq]; exact c
+    · left; intro heq; rw [← heq] at sa; omega
+  rw [if_pos cond]
+
+theorem restOf_month_spec (R : DateTime) (hv : R.date.valid = true) :
+    restOf .MON R = some (restOfFin R ⟨⟨R.date.y, R.date.m, daysInMonth R.date.y R.date.m⟩, 0⟩
+      ((daysInMonth R.date.y R.date.m : Int) - R.date.d + 1) false) ∧
+    0 ≤ (daysInMonth R.date.y R.date.m : Int) - R.date.d + 1 ∧
+    (⟨R.date.y, R.date.m, daysInMonth R.date.y R.date.m⟩ : Date).valid = true := by
+  have hvy := (valid_iff R.date).1 hv
+  have ge := daysInMonth_ge R.date.y R.date.m hvy.2.2.1 hvy.2.2.2.1
+  have vl : (⟨R.date.y, R.date.m, daysInMonth R.date.y R.date.m⟩ : Date).valid = true := by
+    rw [valid_iff]; simp only; omega
+  refine ⟨?_, by omega, vl⟩
+  unfold restOf
+  simp only
+  rw [safeCreate_ymd _ _ _ vl]
+
+theorem restOf_year_spec (R : DateTime) (hv : R.date.valid = true) :
+    restOf .Y R = some (restOfFin R ⟨⟨R.date.y, 12, 31⟩, 0⟩
+      (((⟨R.date.y, 12, 31⟩ : Date).ord : Int) - R.date.ord + 1) false) ∧
+    R.date.ord ≤ (⟨R.date.y, 12, 31⟩ : Date).ord ∧ (⟨R.date.y, 12, 31⟩ : Date).valid = true := by
+  have hvy := (valid_iff R.date).1 hv
+  have vl := valid_dec31 R.date.y hvy.1 hvy.2.1
+  have bR := ord_bounds R.date hv
+  have d := dec31_succ R.date.y hvy.1
+  rw [jan1_ord] at d
+  refine ⟨?_, by omega, vl⟩
+  unfold restOf
+  simp only
+  rw [safeCreate_ymd _ _ _ vl]
+  simp only
+  congr 2
+  omega
+
+/-! ### hours / minutes / seconds ago / later -/
+
+theorem getDateTimeResult_spec (u : TUnit) (R : DateTime) (hv : R.date.valid = true) (n : Nat) (fut : Bool) (t : Str)
+    (v : DateTime) (h : getDateTimeResult u n R fut = some (t, v)) :
+    v.date.valid = true ∧ v.secs < 86400 ∧
+    (v.date.ord : Int) * 86400 + v.secs =
+      (R.date.ord : Int) * 86400 + R.secs + (n : Int) * (if fut then 1 else -1) * u.seconds ∧
+    t = luisDateTime v := by
+  unfold getDateTimeResult at h
+  simp only at h
+  cases ha : addSeconds R ((n : Int) * (if fut then 1 else -1) * u.seconds) with
+  | none => simp [ha] at h
+  | some w =>
+    simp only [ha, Option.map_some, Option.some.injEq, Prod.mk.injEq] at h
+    have := addSeconds_spec R hv _ w ha
+    obtain ⟨h1, h2⟩ := h
+    subst h2
+    exact ⟨this.1, this.2.1, this.2.2, h1.symm⟩
+
+
+/-! ### month + spelled-out day (`parse_number_with_month`) -/
+
+theorem replaceYear_ymd (y m d : Nat) (s : Nat) (y2 : Nat) (hv : (⟨y2, m, d⟩ : Date).valid = true) :
+    replaceYear ⟨⟨y, m, d⟩, s⟩ (y2 : Int) = some ⟨⟨y2, m, d⟩, s⟩ := by
+  unfold replaceYear
+  rw [isValidDate_of_valid ⟨y2, m, d⟩ hv]
+  simp
+
+theorem numberWithMonth_both (fixed : Bool) (R : DateTime) (hv : R.date.valid = true) (m d : Nat) (he : everyYear m d)
+    (hy1 : 2 ≤ R.date.y) (hy2 : R.date.y ≤ 9998) (hs : R.secs = 0) :
+    (⟨R.date.y, m, d⟩ : Date).valid = true ∧ (⟨R.date.y + 1, m, d⟩ : Date).valid = true ∧
+    (⟨R.date.y - 1, m, d⟩ : Date).valid = true ∧
+    (⟨R.date.y - 1, m, d⟩ : Date).ord < R.date.ord ∧ R.date.ord ≤ (⟨R.date.y + 1, m, d⟩ : Date).ord ∧
+    ((⟨R.date.y, m, d⟩ : Date).ord < R.date.ord →
+      numberWithMonth R m d = some (luisDateNoYear m d, ⟨⟨R.date.y + 1, m, d⟩, 0⟩, ⟨⟨R.date.y, m, d⟩, 0⟩) ∧
+      numberWithMonthFixed R m d = some (luisDateNoYear m d, ⟨⟨R.date.y + 1, m, d⟩, 0⟩, ⟨⟨R.date.y, m, d⟩, 0⟩)) ∧
+    (R.date.ord ≤ (⟨R.date.y, m, d⟩ : Date).ord →
+      numberWithMonth R m d = some (luisDateNoYear m d, ⟨⟨R.date.y, m, d⟩, 0⟩, ⟨⟨R.date.y + 1, m, d⟩, 0⟩) ∧
+      numberWithMonthFixed R m d = some (luisDateNoYear m d, ⟨⟨R.date.y, m, d⟩, 0⟩, ⟨⟨R.date.y - 1, m, d⟩, 0⟩)) := by
+  have v0 := valid_everyYear R.date.y m d he (by omega) (by omega)
+  have vp := valid_everyYear (R.date.y - 1) m d he (by omega) (by omega)
+  have vn := valid_everyYear (R.date.y + 1) m d he (by omega) (by omega)
+  have b0 := ord_bounds _ v0
+  have bp := ord_bounds _ vp
+  have bn := ord_bounds _ vn
+  have bR := ord_bounds _ hv
+  have e1 : R.date.y - 1 + 1 = R.date.y := by omega
+  simp only [e1] at bp b0 bn
+  refine ⟨v0, vn, vp, by omega, by omega, ?_, ?_⟩
+  · intro c
+    have l : (DateTime.lt ⟨⟨R.date.y, m, d⟩, 0⟩ R) = true := by rw [lt_iff]; left; exact c
+    have g : ¬ (DateTime.le R ⟨⟨R.date.y, m, d⟩, 0⟩ = true) := by rw [le_iff]; simp only; omega
+    unfold numberWithMonth numberWithMonthFixed
+    simp only [safeCreate_ymd _ m d v0, if_pos l, if_neg g, int_succ, replaceYear_ymd _ m d 0 _ vn, Option.bind_some]
+    exact ⟨trivial, trivial⟩
+  · intro c
+    have l : ¬ (DateTime.lt ⟨⟨R.date.y, m, d⟩, 0⟩ R) = true := by rw [lt_iff]; simp only; omega
+    have g : (DateTime.le R ⟨⟨R.date.y, m, d⟩, 0⟩ = true) := by rw [le_iff]; simp only; omega
+    unfold numberWithMonth numberWithMonthFixed
+    simp only [safeCreate_ymd _ m d v0, if_neg l, if_pos g, int_succ, int_pred _ (show 1 ≤ R.date.y by omega),
+      replaceYear_ymd _ m d 0 _ vn, replaceYear_ymd _ m d 0 _ vp, Option.bind_some]
+    exact ⟨trivial, trivial⟩
 
 end RTV.DateUtils
